@@ -134,10 +134,109 @@ func (e *Engine) resolveType(pkg *types.Package, s string) types.Type {
 	return nil
 }
 
+// specArraySort parses the specification-only value types
+//
+//	set[K]    (Array K Bool)   a mathematical set
+//	amap[K]V  (Array K V)      a total function
+//	seq[T]    (Array Int T)    a sequence view
+//
+// K, V, T are Go scalar types.
+func (e *Engine) specArraySort(pkg *types.Package, s string) (*Sort, bool) {
+	s = strings.TrimSpace(s)
+	elem := func(t string) *Sort {
+		if so, ok := e.specArraySort(pkg, t); ok {
+			return so
+		}
+		so, ok := e.scalarSort(e.resolveType(pkg, strings.TrimSpace(t)))
+		if !ok {
+			sfail("unsupported element type %s in specification type", t)
+		}
+		return so
+	}
+	switch {
+	case strings.HasPrefix(s, "set[") && strings.HasSuffix(s, "]"):
+		return ArrSort(elem(s[4:len(s)-1]), SBool), true
+	case strings.HasPrefix(s, "seq[") && strings.HasSuffix(s, "]"):
+		return ArrSort(SInt, elem(s[4:len(s)-1])), true
+	case strings.HasPrefix(s, "amap["):
+		j := matchBracket(s, 4)
+		if j < 0 {
+			sfail("malformed type %s", s)
+		}
+		return ArrSort(elem(s[5:j]), elem(s[j+1:])), true
+	}
+	return nil, false
+}
+
+func matchBracket(s string, i int) int {
+	d := 0
+	for j := i; j < len(s); j++ {
+		switch s[j] {
+		case '[':
+			d++
+		case ']':
+			d--
+			if d == 0 {
+				return j
+			}
+		}
+	}
+	return -1
+}
+
+// ixPatterns lists the distinct subterms (ix A v) of text whose second argument
+// is exactly the bound variable v and whose first argument does not mention it.
+func ixPatterns(text, v string) []string {
+	var out []string
+	seen := map[string]bool{}
+	for i := 0; i+4 < len(text); i++ {
+		if !strings.HasPrefix(text[i:], "(ix ") {
+			continue
+		}
+		d := 0
+		j := i
+		for ; j < len(text); j++ {
+			if text[j] == '(' {
+				d++
+			} else if text[j] == ')' {
+				d--
+				if d == 0 {
+					break
+				}
+			} else if text[j] == '|' {
+				k := strings.IndexByte(text[j+1:], '|')
+				if k < 0 {
+					break
+				}
+				j += k + 1
+			}
+		}
+		if j >= len(text) {
+			break
+		}
+		sub := text[i : j+1]
+		if strings.HasSuffix(sub, " "+v+")") && !containsSym(sub[:len(sub)-len(v)-2], v) && !seen[sub] {
+			seen[sub] = true
+			out = append(out, sub)
+		}
+	}
+	return out
+}
+
 // boundVar creates the SMT bound variable for a quantifier.
 func (e *Engine) boundVar(env *SpecEnv, bv BoundVar) (Value, Term) {
 	*env.qn++
 	name := fmt.Sprintf("%s!q%d", bv.Name, *env.qn)
+	if so, ok := e.specArraySort(env.pkg, bv.Type); ok {
+		tm := T(name, so)
+		return tm, tm
+	}
+	if strings.TrimSpace(bv.Type) == "index" {
+		// an int that is used as a slice index: instantiation is triggered by
+		// the element positions ix(off, v) occurring in the body
+		tm := T(name, SInt)
+		return tm, tm
+	}
 	t := e.resolveType(env.pkg, bv.Type)
 	if mt, ok := t.Underlying().(*types.Map); ok {
 		tm := T(name, SInt)
@@ -270,6 +369,48 @@ func (e *Engine) evalSpec(env *SpecEnv, x *SExpr) Value {
 		// they are true in every intended model, so omitting them is sound in
 		// assumed formulas and only makes goals harder.
 		_ = inner
+		var pats [][]Term
+		if len(x.Pats) > 0 {
+			e.ctx.noDefine++
+			for _, grp := range x.Pats {
+				var g []Term
+				for _, pe := range grp {
+					v := e.evalSpec(&ne2, pe)
+					t, ok := v.(Term)
+					if !ok {
+						sfail("pattern %s is not a term", pe)
+					}
+					g = append(g, t)
+				}
+				pats = append(pats, g)
+			}
+			e.ctx.noDefine--
+			if x.Op == "forall" {
+				return ForallPat(vars, pats, body)
+			}
+			return Not(ForallPat(vars, pats, Not(body)))
+		}
+		for i, bv := range x.Vars {
+			if strings.TrimSpace(bv.Type) == "index" {
+				for _, pt := range ixPatterns(body.S, vars[i].S) {
+					pats = append(pats, []Term{T(pt, SInt)})
+				}
+			}
+		}
+		if len(pats) > 0 && len(vars) == 1 {
+			// ixmark(x) is true for every x (prelude); mentioning it outside the
+			// nested quantifiers makes ix(off, v0) a ground term once v is
+			// skolemised, so that inner quantifiers can be instantiated with it
+			var marks []Term
+			for _, pt := range pats {
+				marks = append(marks, T("(ixmark "+pt[0].S+")", SBool))
+			}
+			if x.Op == "forall" {
+				return ForallPat(vars, pats, Implies(And(marks...), body))
+			}
+			// exists v. B  ==  not forall v. not B (patterns attach to the forall)
+			return Not(ForallPat(vars, pats, Not(And(append(marks, body)...))))
+		}
 		if x.Op == "forall" {
 			return Forall(vars, body)
 		}
